@@ -54,7 +54,7 @@ def run_harness(exe, lines, workdir, tag):
 def fields(line):
     t = line.split(" ")
     d = {"cmd": t[0], "id": t[1], "dom": t[2], "dim": int(t[3])}
-    for k in ("w", "sg", "ov", "thr", "ind", "cx"):
+    for k in ("w", "sg", "ov", "thr", "ind", "cx", "st"):
         if k in t:
             # the LAST occurrence before `cand` is the parameter (constraint rows contain only numbers and kinds)
             i = max(j for j, x in enumerate(t) if x == k)
@@ -158,7 +158,10 @@ def run(chk):
                 "overflow mode x guard (none / one bound / relation between two wrapped variables) x threshold {0,1,2,4,16} x individual/collective; "
                 "per wrapped variable the argument lies in one quadrant, straddles 2-5 quadrants, is unbounded on one side or has non-integer ends "
                 "(w=8: real magnitudes; larger w: ends within a few units of k*2^w), plus relational constraints; grids by congruences with integer, "
-                "rational and 2^w-related frequencies. A wrap case is non-trivial when at least one integer point of the argument in the candidate "
+                "rational and 2^w-related frequencies; for contains_integer_point / drop_some_non_integer_points: small rational polyhedra and, for C/NNC, "
+                "integer-cornered boxes / diagonal segments / simplices with open or closed sides (closure with integral points the set may lack), each instance "
+                "run in EVERY lazy representation state (constraints only, generators computed, both minimized, rebuilt from (minimized) generators, pending "
+                "constraint, pending generator); wrap cases on C/NNC take a random state. A wrap case is non-trivial when at least one integer point of the argument in the candidate "
                 "window (membership decided by the verified test) has a required point different from itself (it moved); a cip case when the "
                 "verified search decided it; a drop case when the exact checks were decided")
     chk.trusted += ["Coq 8.16.1 kernel (coqc)", "vm_compute in the refutation witness and Examples only",
@@ -252,7 +255,7 @@ def _run_cases(chk, judge, exe, work):
                 tag = cip_cause(case, detail)
             if fd.get("cmd") == "drop" and fd.get("dim") == 0:
                 tag = "zero-dim-universe"
-            info = {"site": site, "kind": kind, "domain": fd.get("dom"), "cause": tag}
+            info = {"site": site, "kind": kind, "domain": fd.get("dom"), "cause": tag, "state": fd.get("st", 0)}
             if fd.get("cmd") == "wrap":
                 info["path"] = ("collective" if fd.get("ind") == 0 else "individual") + "-" + {0: "wraps", 1: "undefined", 2: "impossible"}.get(fd.get("ov"), "?")
             chk.failure(info, {"case": case, "judge": detail, "theorem": "wrap_generic_sound_partial / wrap_generic_sound_patched (WrapSpec.required)",
@@ -275,6 +278,12 @@ def _run_cases(chk, judge, exe, work):
     chk.extra["drop_constraints_validated"] = stat.get("drop_constraints_validated", 0)
     chk.extra["drop_subset_decided"] = stat.get("drop_subset_checked", 0)
     chk.extra["histogram"] = dict(sorted(cov.items()))
+    sth = {}
+    for l in allc:
+        fd = fields(l)
+        if fd["dom"] in ("C", "NNC"):
+            k = "%s:%s:st%d" % (fd["cmd"], fd["dom"], fd.get("st", 0)); sth[k] = sth.get(k, 0) + 1
+    chk.extra["lazy_state_histogram"] = dict(sorted(sth.items()))
     chk.extra["traces_validated_against_impl"] = stat.get("model_included", 0)
     tot = stat.get("cases", 0)
     if tot and chk.undecided * 20 > tot:
